@@ -30,6 +30,7 @@ Derive(e) ==
   CASE e.a = "With"   -> Put(e.i, e.j, [s EXCEPT !.kind = "C", !.used = FALSE]) /\ UNCHANGED branched
     [] e.a = "Field"  -> Put(e.i, e.j, [s EXCEPT !.fields = Append(@, e.arg), !.used = FALSE]) /\ Branch(e.i)
     [] e.a = "GoCtx"  -> Put(e.i, e.j, [s EXCEPT !.goctx = e.arg, !.used = FALSE]) /\ Branch(e.i)
+    [] e.a = "CtxReset" -> Put(e.i, e.j, [s EXCEPT !.fields = <<>>, !.used = FALSE]) /\ UNCHANGED branched   \* fresh array: cannot alias
     [] e.a = "Logger" -> Put(e.i, e.j, [s EXCEPT !.kind = "L", !.used = FALSE]) /\ Branch(e.i)
     [] e.a = "Level"  -> Put(e.i, e.j, [s EXCEPT !.level = e.arg]) /\ UNCHANGED branched
     [] e.a = "Hook"   -> Put(e.i, e.j, [s EXCEPT !.hooks = Append(@, e.arg)]) /\ UNCHANGED branched
